@@ -79,7 +79,7 @@ def _random_requests(seed, n):
     kinds = ["info", "newfolder", "delete", "download", "upload", "setcomment", "rename", "move", "alias", "list", "dlfolder"]
     for _ in range(n):
         k = rnd.choice(kinds)
-        q = {"kind": k, "occ": rnd.randint(0, 1), "path": path(), "name": comp(), "newname": [-1], "newpath": [-1], "comment": [-1]}
+        q = {"kind": k, "occ": rnd.randint(0, 1), "ur": 0, "path": path(), "name": comp(), "newname": [-1], "newpath": [-1], "comment": [-1]}
         if k == "list":
             q["name"] = [-1]
             q["occ"] = 1
@@ -95,6 +95,8 @@ def _random_requests(seed, n):
             q["newpath"] = path()
             if rnd.random() < 0.6:
                 q["name"] = rnd.choice([[120], [98, 46, 116, 120, 116], [97]])
+        if rnd.random() < 0.25:      # the requester is confined to its own file root
+            q["ur"], q["occ"] = 1, 0
         out.append(q)
     return out
 
@@ -116,12 +118,12 @@ def _judge_c07(ctx, world, reqs, neg_thread=None, neg=None):
         kinds[q["kind"]] = kinds.get(q["kind"], 0) + 1
     ctx.notes["requests_by_kind"] = kinds
     ctx.sample({"request": {k: (_name(v) if isinstance(v, list) else v) for k, v in reqs[len(reqs) // 2].items()
-                            if k in ("kind", "occ", "path", "name", "newname", "newpath", "comment")}})
+                            if k in ("kind", "occ", "ur", "path", "name", "newname", "newpath", "comment")}})
     for v in viol:
         if v.get("prop") != "C07":
             continue
         st = v.get("step", {})
-        brief = {k: st.get(k) for k in ("kind", "occ", "path", "name", "newname", "newpath", "item", "ops", "reps", "disclosed") if k in st}
+        brief = {k: st.get(k) for k in ("kind", "occ", "ur", "path", "name", "newname", "newpath", "item", "ops", "reps", "disclosed") if k in st}
         ctx.add_violation(sig_c07(v), {"request": brief, "detail": v.get("detail")},
                           replay={"driver": "vh-files c07", "trace_module": "Trace_Files", "world": world[0], "request": {k: st.get(k) for k in st if k not in ("diff", "names")}})
     for d in drift:
@@ -145,11 +147,15 @@ def run_c07(ctx):
         raise Fatal("TLC emitted no C07 requests:\n%s" % r.out[-2000:])
     reqs.sort(key=lambda q: json.dumps(q, sort_keys=True))
     if quick:
-        # every request of the core set that can leave the trees on the pinned tree is kept; of the rest a seeded 80 %
+        # every request of the core set that can leave the trees on the pinned tree is kept; of the rest a seeded 60 %
         keep = []
         for i, q in enumerate(reqs):
-            top = q["kind"] in ("rename", "upfolder", "acct") or q.get("path") == [-1]
-            if top or (i * 7919 + ctx.seed * 104729) % 10 < 8:
+            h = (i * 7919 + ctx.seed * 104729) % 10
+            if q["kind"] == "upfolder":      # transfers (3 s each, run in parallel): all one-segment items, half of the rest
+                top = q["item"]["count"] <= 1 or h < 5
+            else:
+                top = q["kind"] in ("rename", "acct") or q.get("path") == [-1] or h < 6
+            if top:
                 keep.append(q)
         reqs = keep
     if not quick:
@@ -263,7 +269,7 @@ def replay(ctx, prop, rp):
     ctx.build(name="vh-files")
     r = rp.get("replay") or {}
     if prop == "C07":
-        keep = ("kind", "occ", "path", "name", "newname", "newpath", "comment", "item", "ops")
+        keep = ("kind", "occ", "ur", "path", "name", "newname", "newpath", "comment", "item", "ops")
         _judge_c07(ctx, [r["world"]], [{k: v for k, v in r["request"].items() if k in keep}])
     else:
         _judge_c11(ctx, [r["script"]], 0)
